@@ -1,7 +1,7 @@
 SPECIFICATION MCSpec
 CONSTANTS
   Paths = {"a", "b", "c"}
-  Kinds = {"native", "poll"}
+  Kinds = {"native", "poll", "poll2"}
   Fixes <- AllFsFixes
   Tracing = FALSE
   MaxChanges = 4
